@@ -11,6 +11,8 @@ import (
 
 	"pgregory.net/rapid"
 
+	nodesTypes "github.com/pokt-network/pocket-core/x/nodes/types"
+
 	"verif/harness"
 	"verif/harness/chain"
 )
@@ -65,9 +67,33 @@ func genC12History(rt *rapid.T, w *chain.World, c *harness.Case) *chain.History 
 			h.Txs = append(h.Txs, txs)
 		}
 	}
+	if rapid.IntRange(0, 2).Draw(rt, "multiUnstake") == 0 && len(w.Nodes) >= 2 {
+		// several nodes begin unstaking inside one session: they are released at the same session end and share one
+		// completion time (one unstaking-queue entry holding several addresses), and mature in the same block
+		c.Label("multi-unstake-same-session")
+		c.NonTrivial()
+		b, txs := w.GenBlock(rt)
+		k := rapid.IntRange(2, len(w.Nodes)).Draw(rt, "unstakers")
+		for i := 0; i < k; i++ {
+			op := w.Nodes[i]
+			msg := &nodesTypes.MsgBeginUnstake{Address: chain.Addr(op), Signer: chain.Addr(op)}
+			e := w.NextEntropy()
+			g := chain.GenTx{Desc: fmt.Sprintf("nodeUnstake %s e=%d", w.KeyName(op), e), Kind: "nodeUnstake", Msg: msg, Signer: op,
+				Bytes: chain.SignTx(w.Spec.ChainID, msg, chain.DefaultFee, "", e, op)}
+			txs = append(txs, g)
+			b.Txs = append(b.Txs, g.Bytes)
+		}
+		h.Blocks = append(h.Blocks, b)
+		h.Txs = append(h.Txs, txs)
+	}
 	rest := w.GenHistory(rt, 2, 8)
 	h.Blocks = append(h.Blocks, rest.Blocks...)
 	h.Txs = append(h.Txs, rest.Txs...)
+	// a final time jump so that pending unstakes mature inside the history
+	fin, ftx := w.GenBlock(rt)
+	fin.DT = 3 * time.Minute
+	h.Blocks = append(h.Blocks, fin)
+	h.Txs = append(h.Txs, ftx)
 	return h
 }
 
@@ -106,7 +132,7 @@ func TestC12(t *testing.T) {
 			"attempts around JailedUntil; executed 3x in-process (globals reset, GOMAXPROCS 1/4/16) -> identical transcripts; and executed with all timestamps shifted to year 2001 "+
 			"vs 2101 (both sides of the local clock) -> identical tx codes, validator updates and balances. non-trivial = the history pays a proposer with >=2 delegators "+
 			"or contains an unjail attempt of a jailed node",
-		map[string]float64{"jail-scenario": 0.4, "proposer-with-delegators": 0.3, "unjail-of-jailed-node": 0.25, "delegator-burst": 0.2},
+		map[string]float64{"jail-scenario": 0.4, "proposer-with-delegators": 0.3, "unjail-of-jailed-node": 0.25, "delegator-burst": 0.2, "multi-unstake-same-session": 0.2},
 		func(rt *rapid.T, c *harness.Case) {
 			w := chain.GenWorld(rt)
 			burst := rapid.IntRange(0, 2).Draw(rt, "delegatorBurst") == 0
